@@ -174,9 +174,12 @@ class AnalyzerCorr(Corr):
         out.append({"stream": "edge", "frame": "base_link", "div": 9, "cfg": 0, "crit": 0, "pf": 0, "scenes": [[f_fp, f_b], [f_b]],
                     "sels": [{}, {"scene": 1}, {"label": "bicycle"}, {"area": [0, 5, 3]}, {"frame": 1, "scene": 0}, {"status": ["FP", "FN"]}],
                     "analyze": [{}, {"scene": 1}, {"area": 4}, {"distance": [5.0, 20.0]}, {"scene": 7}, {"label": "bicycle"}]})
-        n = 44 if tier == "quick" else 700
-        for ci in range(n):
-            out.append(self.gen_case(rng, ci))
+        n = 40 if tier == "quick" else 700
+        rnd = [self.gen_case(rng, ci) for ci in range(n)]
+        # deal the random cases over the coqc shards by size (large tables dominate the evaluation time of a shard)
+        rnd.sort(key=lambda c: -sum(len(fr["gts"]) + len(fr["ests"]) for sc in c["scenes"] for fr in sc))
+        nsh = max(1, -(-len(rnd) // self.shard))
+        out += [rnd[j] for k in range(nsh) for j in range(k, len(rnd), nsh)]
         return out
 
     def gen_case(self, rng, ci):
@@ -185,11 +188,11 @@ class AnalyzerCorr(Corr):
         frame = "map" if ci % 2 else "base_link"
         clean = ci % 6 in (2, 3)               # stream without FP pairs on ordinary ground truths (outside the F11 class)
         general_ego = frame == "map" and ci % 4 == 1
-        n_scenes = 1 if rng.random() < 0.6 else 2
+        n_scenes = 1 if rng.random() < 0.6 else (2 if rng.random() < 0.8 else 3)      # up to three scenes through one analyzer
         scenes = []
         for s in range(n_scenes):
             frames = []
-            for i in range(rng.randint(1, 3)):
+            for i in range(rng.randint(1, 3) if n_scenes < 3 else 1 + (s == 1)):
                 fr = MC.gen_frame(rng, i, n_gt=(0 if rng.random() < 0.08 else None), with_ego=(frame == "map" or rng.random() < 0.5))
                 for g in fr["gts"]:
                     if rng.random() < 0.12:
@@ -227,6 +230,16 @@ class AnalyzerCorr(Corr):
                                 e["label"] = rng.choice(free)
                                 keep.append(e)
                     fr["ests"] = keep
+                if frame == "base_link" and fr["gts"] and rng.random() < 0.6:
+                    # ego-frame scenes: ground truths (with their estimate, same offset) at EXACT distances 5, 10, 20, 60 m (Pythagorean positions;
+                    # the norm is exact in binary64): the bounds of the distance selections of analyze() are hit with equality
+                    for g in rng.sample(fr["gts"], min(len(fr["gts"]), rng.randint(1, 2))):
+                        nx, ny = rng.choice([(3.0, 4.0), (-4.0, 3.0), (6.0, -8.0), (-8.0, -6.0), (12.0, 16.0), (-16.0, 12.0), (0.0, -20.0), (36.0, 48.0), (10.0, 0.0)])
+                        dx, dy = nx - g["pos"][0], ny - g["pos"][1]
+                        g["pos"] = [nx, ny, g["pos"][2]]
+                        for e in fr["ests"]:
+                            if e["uuid"] == "t" + g["uuid"][1:]:
+                                e["pos"] = [e["pos"][0] + dx, e["pos"][1] + dy, e["pos"][2]] if rng.random() < 0.5 else [nx, ny, e["pos"][2]]
                 # velocities (k/8 lattice; some objects without an estimated velocity, as the loader yields them)
                 for o in fr["gts"] + fr["ests"]:
                     o["vel"] = None if rng.random() < 0.12 else [rng.randint(-80, 80) / 8, rng.randint(-80, 80) / 8, 0.0]
@@ -242,6 +255,9 @@ class AnalyzerCorr(Corr):
                 frames.append(fr)
             MC.assign_confidences(frames, rng, distinct=True)
             scenes.append(frames)
+        # keep the table small (the exact rational summaries inside Coq grow faster than linearly with the paired rows)
+        while sum(len(fr["gts"]) for sc in scenes for fr in sc) > 17 and any(len(sc) > 1 for sc in scenes):
+            max(scenes, key=len).pop()
         labels = MC.TARGETS
         sels = [{}]
         pool = [{"scene": rng.randrange(2)}, {"label": rng.choice(labels)}, {"frame": rng.randrange(3)}, {"area": rng.randrange(9)},
@@ -251,10 +267,24 @@ class AnalyzerCorr(Corr):
         apool = [{"scene": rng.randrange(2)}, {"area": rng.randrange(3)}, {"label": rng.choice(labels)},
                  {"distance": [rng.choice([0.0, 5.0, 10.0]), rng.choice([20.0, 40.5, 60.0])]},
                  {"scene": 0, "distance": [0.0, 35.0]}, {"frame": rng.randrange(2), "area": [0, 1, 4]}]
+        # selections chosen from the content: the most frequent ground-truth label (rows of that label usually exist in every scene / frame /
+        # distance band, inside AND outside a second criterion), distance bands cut at the generated distances
+        gl = [g["label"] for sc in scenes for fr in sc for g in fr["gts"] if g["label"] in labels]
+        if gl:
+            top = max(sorted(set(gl)), key=gl.count)
+            ds_ = sorted(math.hypot(g["pos"][0], g["pos"][1]) for sc in scenes for fr in sc for g in fr["gts"])
+            cut = float(math.floor(ds_[len(ds_) // 2])) + rng.choice([0.0, 0.5])
+            ipool = [{"label": top, "scene": rng.randrange(n_scenes)}, {"label": top, "distance": [0.0, max(cut, 1.0)]},
+                     {"distance": [max(cut, 1.0), 1000.0]}, {"label": top, "frame": 0}, {"distance": [rng.choice([5.0, 10.0]), rng.choice([20.0, 60.0])]},
+                     {"scene": n_scenes - 1}, {"label": top, "area": rng.randrange(3)}]
+        else:
+            ipool = [{"scene": 0}, {"distance": [0.0, 20.0]}]
         div = [1, 3, 9][(ci // 3) % 3]
         return {"stream": "clean" if clean else "random", "frame": frame, "div": div, "cfg": cfg, "crit": rng.randrange(len(CRIT)),
                 "pf": rng.randrange(2) if clean else rng.randrange(len(PF)),
                 "scenes": scenes, "sels": sels, "analyze": [{}] + rng.sample(apool, 2),
+                # judged by the oracle only (the exact rational summaries of further non-empty selections are costly inside Coq)
+                "analyze_oracle": rng.sample(ipool, 2),
                 "general_ego": general_ego, "readd": ci % 3 == 0, "div_default": div == 1 and ci % 2 == 0}
 
     # ------------------------------------------------------------------ implementation
@@ -332,18 +362,22 @@ class AnalyzerCorr(Corr):
         obs["summary"] = guarded(lambda: summaries_of(an.summarize_error(), labels))
         obs["ratio"] = guarded(lambda: ratios_of(an.summarize_ratio(), labels))
         obs["cm"] = guarded(lambda: cm_of(an.get_confusion_matrix()))
-        obs["analyze"] = []
-        for kw in case["analyze"]:
-            kw = dict(kw)
-            if "distance" in kw:
-                kw["distance"] = tuple(kw["distance"])
+        def run_analyze(kws):
+            out = []
+            for kw in kws:
+                kw = dict(kw)
+                if "distance" in kw:
+                    kw["distance"] = tuple(kw["distance"])
 
-            def one(kw=kw):
-                res = an.analyze(**kw)
-                if res.score is None:
-                    return None
-                return {"ratio": ratios_of(res.score, labels), "summary": summaries_of(res.error, labels), "cm": cm_of(res.confusion_matrix)}
-            obs["analyze"].append(guarded(one))
+                def one(kw=kw):
+                    res = an.analyze(**kw)
+                    if res.score is None:
+                        return None
+                    return {"ratio": ratios_of(res.score, labels), "summary": summaries_of(res.error, labels), "cm": cm_of(res.confusion_matrix)}
+                out.append(guarded(one))
+            return out
+        obs["analyze"] = run_analyze(case["analyze"])
+        obs["analyze_oracle"] = run_analyze(case.get("analyze_oracle", []))     # oracle only
         inf = lambda v: "inf" if v == float("inf") else float(v)
         sts_all = [get_object_status(rs) for rs in scene_results]
         obs["status_rates"] = [[[s.uuid, [inf(r.rate) for r in s.get_status_rates()], [str(r.status) for r in s.get_status_rates()]] for s in sts]
@@ -534,7 +568,9 @@ class AnalyzerCorr(Corr):
              "streams": {}, "cases_with_general_ego_rotation(roll/pitch)": 0, "rows_under_general_ego_rotation": 0,
              "cases_cleared_and_filled_again": 0, "cases_with_default_num_area_division": 0, "cases_outside_F11_class_with_rows": 0,
              "objects_without_velocity": 0, "objects_with_velocity": 0, "velocity_rows_checked(base_link)": 0,
-             "get_status_num_calls": 0, "status_rates": {"records": 0, "rate_inf(status_without_frame)": 0}, "analyze_scene_or_frame_rate_checks": 0}
+             "get_status_num_calls": 0, "scenes3": 0,
+             "analyze_selections": {"judged": 0, "with_paired_rows_of_a_selected_label_left_outside": 0, "label_rows_of_rates_judged": 0,
+                                    "row_distance_equal_to_a_bound": 0}, "status_rates": {"records": 0, "rate_inf(status_without_frame)": 0}, "analyze_scene_or_frame_rate_checks": 0}
         for c, o in zip(cases, obs):
             if not isinstance(o, dict) or "facts" not in o:
                 continue
@@ -563,6 +599,25 @@ class AnalyzerCorr(Corr):
             d["analyze_scene_or_frame_rate_checks"] += sum(1 for kw, g in zip(c["analyze"], o.get("analyze", []))
                                                            if kw and not (set(kw) - {"scene", "frame"}) and "ok" in g and g["ok"] is not None)
             d["cfg"][c["cfg"]] += 1
+            d["scenes3"] += len(c["scenes"]) == 3
+            rows_ = o.get("rows") or []
+            prs = [(rows_[2 * k][0], rows_[2 * k][2], rows_[2 * k + 1][2]) for k in range(len(rows_) // 2)]
+            for kw, g in zip(c["analyze"] + c.get("analyze_oracle", []), o.get("analyze", []) + o.get("analyze_oracle", [])):
+                if not kw or "ok" not in g or g["ok"] is None or not prs:
+                    continue
+                sel = set(selected_pairs(kw, prs))
+                aa = d["analyze_selections"]
+                aa["judged"] += 1
+                inside = {prs[k][1]["label"] for k in sel if prs[k][1] is not None and prs[k][2] is not None}
+                aa["with_paired_rows_of_a_selected_label_left_outside"] += any(
+                    k not in sel and gr is not None and er is not None and gr["label"] in inside for k, (_, gr, er) in enumerate(prs))
+                if "distance" in kw:
+                    aa["row_distance_equal_to_a_bound"] += any(r is not None and r["distance"] in kw["distance"] for _, gr, er in prs for r in (gr, er))
+                for lname in o["targets"]:
+                    n_gt = sum(1 for k in sel if prs[k][1] is not None and prs[k][1]["label"] == lname)
+                    mixed = any(prs[k][1] is not None and prs[k][2] is not None and prs[k][1]["label"] != prs[k][2]["label"]
+                                and lname in (prs[k][1]["label"], prs[k][2]["label"]) for k in sel)
+                    aa["label_rows_of_rates_judged"] += n_gt > 0 and not mixed
             d["scenes2"] += len(c["scenes"]) == 2
             d["yaw_ambiguous_cases"] += self.ambiguous(o)
             d["mixed_label_tp_cases(F15 class)"] += mixed_label_tp(o)
@@ -803,11 +858,13 @@ def oracle(case, obs):
                 if m[i][j] != k:
                     return f"confusion matrix [{gl}][{el}] = {m[i][j]} but {k} paired rows have ground-truth label {gl} and estimate label {el}"
     # 7. analyze() = the same summaries on the selected rows
-    for kw, g in zip(case["analyze"], obs["analyze"]):
+    for kw, g in zip(case["analyze"] + case.get("analyze_oracle", []), obs["analyze"] + obs.get("analyze_oracle", [])):
         if "error" in g:
             return f"analyze({kw}) raised {g['error']}"
         a = g["ok"]
         if a is None:
+            if selected_pairs(kw, pairs):
+                return f"analyze({kw}) returned nothing although {len(selected_pairs(kw, pairs))} row pairs are selected"
             continue
         for lname, r in zip(labels, a["ratio"]):
             if any(not (0.0 <= v <= 1.0) for v in r):
@@ -819,6 +876,9 @@ def oracle(case, obs):
         if not kw:
             if a["ratio"] != rt["ok"] or a["cm"] != cm.get("ok") or not same_summaries(a["summary"], sm["ok"]):
                 return "analyze() differs from summarize_ratio() / summarize_error() / get_confusion_matrix()"
+        msg = oracle_analyze(kw, a, expected, pairs, labels, amb)
+        if msg:
+            return msg
         if a["cm"] is not None:
             want_pairs = analyze_pairs(kw, expected, pairs)
             if want_pairs is not None and sum(map(sum, a["cm"]["m"])) != want_pairs:
@@ -1001,6 +1061,68 @@ def selected_counts(sel, frames, obs):
     return [gt, est, tp, fp, tn, fn]
 
 
+def selected_pairs(kw, pairs):
+    """indices of the row pairs analyze(kw) works on: a pair is selected when, for every key, one of its rows matches (distance: lies in
+    [min, max))"""
+    as_list = lambda v: list(v) if isinstance(v, (list, tuple)) else [v]
+    out = []
+    for k, (i, gr, er) in enumerate(pairs):
+        keep = True
+        for key, v in kw.items():
+            if key == "distance":
+                keep = keep and any(r is not None and v[0] <= r["distance"] < v[1] for r in (gr, er))
+            else:
+                keep = keep and any(r is not None and r[key] in as_list(v) for r in (gr, er))
+        if keep:
+            out.append(k)
+    return out
+
+
+def oracle_analyze(kw, a, expected, pairs, labels, amb):
+    """analyze(selection): rates and error summaries of the SELECTED row pairs only -- per label as well as over all labels (rows of the
+    same label outside the selection must not leak in).  A label row of the rates is judged when the selected pairs touching that label
+    carry equal labels on both rows (otherwise ground-truth and estimate rows of the label are different sets: F15 class) and the label
+    has a selected ground-truth row."""
+    import numpy as np
+
+    sel = selected_pairs(kw, pairs)
+    if not sel:
+        return f"analyze({kw}) returned tables although no row pair is selected"
+    rows = [(pairs[k][1], pairs[k][2], expected[k]) for k in sel]
+    for li, lname in enumerate(labels):
+        is_l = lambda r: r is not None and (lname == "ALL" or r["label"] == lname)
+        n_gt = sum(1 for gr, er, _ in rows if is_l(gr))
+        mixed = any(gr is not None and er is not None and gr["label"] != er["label"] and (is_l(gr) or is_l(er)) for gr, er, _ in rows)
+        if n_gt > 0 and (lname == "ALL" or not mixed):
+            tp = sum(1 for gr, er, _ in rows if is_l(er) and er["status"] == "TP")
+            fp = sum(1 for gr, er, _ in rows if is_l(er) and er["status"] == "FP")
+            tn = sum(1 for gr, er, _ in rows if is_l(gr) and gr["status"] == "TN")
+            fn = sum(1 for gr, er, _ in rows if is_l(gr) and gr["status"] == "FN")
+            want = [tp / n_gt, (fp / (tp + fp) if tp + fp else 0.0), tn / n_gt, fn / n_gt]
+            if any(abs(x - y) > 1e-12 for x, y in zip(a["ratio"][li], want)):
+                return (f"analyze({kw}).score[{lname}] = {a['ratio'][li]} but the {len(sel)} selected row pairs give TP/GT, FP/(TP+FP), TN/GT, FN/GT = "
+                        f"{want} ({n_gt} ground-truth rows of that label selected)")
+        sub = [(g, e) for gr, er, (_, _, _, g, e) in rows if gr is not None and er is not None and (lname == "ALL" or g["label"] == lname)]
+        for ci, c in enumerate(COLS):
+            got = a["summary"][li][ci]
+            if c == "yaw":
+                if amb:
+                    continue
+                arr = np.array([wrap_pi(g["yaw"] - e["yaw"]) for g, e in sub])
+            else:
+                key = {"x": "x", "y": "y", "length": "l", "width": "w"}[c]
+                arr = np.array([g[key] - e[key] for g, e in sub])
+            if len(arr) == 0:
+                if got is not None:
+                    return f"analyze({kw}).error[{lname}][{c}] = {got} although no paired row of that label is selected"
+                continue
+            want = [float(arr.mean()), float(np.sqrt((arr ** 2).mean())), float(np.sqrt(((arr - arr.mean()) ** 2).mean())), float(np.abs(arr).max()), float(np.abs(arr).min())]
+            if got is None or any(abs(x - y) > 1e-6 * (1 + abs(y)) for x, y in zip(got, want)):
+                return (f"analyze({kw}).error[{lname}][{c}] = {got} but mean/RMS/std/max/min of the errors of the {len(arr)} selected paired rows "
+                        f"of that label are {want}")
+    return None
+
+
 def analyze_pairs(kw, expected, pairs):
     """number of paired rows analyze(kw) selects (a pair is selected when either row matches every key)"""
     as_list = lambda v: list(v) if isinstance(v, (list, tuple)) else [v]
@@ -1044,12 +1166,18 @@ class C19(Prop):
                   "(ego-frame x/y/yaw) are read through the public TransformDict.transform and independently compared by the oracle with the generated "
                   "ego-frame poses (also under general 3-D ego rotations); RMS and std are compared squared; pi is the binary64 np.pi. Run-time oracle only "
                   "(not modelled): get_status_num, velocity columns, status / scene frame rates, clear() followed by add().")
-    rule = ("witness + 5 regression inputs + random scenes: 1-2 scenes x 1-3 frames x 0-7 GT (k/8 lattice, FP-labelled GT 12%), ego / map frame with random ego "
+    rule = ("witness + 5 regression inputs + random scenes: 1-2 scenes x 1-3 frames (8%: 3 scenes of 1 / 2 / 1 frames) x 0-7 GT (k/8 lattice, FP-labelled GT 12%), ego / map frame with random ego "
             "poses, 1/3/9 divisions over 3 configurations (100x100; 48x96 with objects exactly on and next to the grid lines; distance-filtered with "
             "objects outside every area), 4 critical filters x 3 pass/fail thresholds, 4 counter selections and 3 analyze() selections per case; "
             "every 4th case (map frame) under a GENERAL ego rotation (roll and pitch; rational points of S^3), so that ego-frame x / y / yaw cannot be had "
             "from plane shortcuts; a third of the cases in a 'clean' stream (close pairs with equal labels, strays with labels no ground truth has) "
-            "that stays outside the F11 class, so that the ground-truth counters are judged; objects carry velocities (12% None); every 3rd "
+            "that stays outside the F11 class, so that the ground-truth counters are judged; objects carry velocities (12% None); up to three scenes through one analyzer; ego-frame "
+            "scenes place ground truths (and their estimates) at EXACT distances 5 / 10 / 20 / 60 m so that the bounds of analyze(distance) are "
+            "hit with equality; besides the 3 model-compared analyze() selections, 2 oracle-only selections per case are chosen from the content (most frequent "
+            "label x scene / frame / area / distance band cut at the median distance, last scene) so that paired rows of a selected label also exist "
+            "OUTSIDE the selection (counted); cases are capped at 17 ground truths and dealt over the coqc shards by size; oracle: for EVERY analyze(selection) the ALL row and every label row of the rates (label rows when the selected pairs of "
+            "that label carry equal labels) and of the error summaries equal those of the selected row pairs only, and analyze returns nothing "
+            "exactly when no pair is selected; every 3rd "
             "analyzer is cleared and filled again before it is read; num_area_division left at its default; oracle-only: get_status_num (string "
             "and enum status, with selections) = get_num_*, vx / vy / speed rows and their errors (ego-frame cases), analyze(scene / frame) ALL rates "
             "from the selected counters, GroundTruthStatus.get_status_rates and get_scene_rates = tallied frames over total frames; "
